@@ -10,26 +10,29 @@ From T38 Require Import Base.Bytes Model.Glob Model.Collection Model.GlobSel.
 Import ListNotations.
 Open Scope N_scope.
 
-(* SCAN key MATCH p1 .. MATCH pn [DESC] IDS : the ids in reply order.
-   sw.col.Scan / ScanRange iterate c.objs (ids ascending; Descend for DESC) *)
-Definition coll_scan_ids (globs : list bytes) (desc : bool) (c : coll) : list bytes :=
-  scan_multi globs desc (map o_id (scan_ids c)).
+(* SCAN key MATCH p1 .. MATCH pn [DESC] LIMIT limit IDS : the ids in reply order.
+   sw.col.Scan / ScanRange iterate c.objs (ids ascending; Descend for DESC); every visited object
+   goes through scanWriter.pushObject (Model.GlobSel.scan_multi, no field filter) *)
+Definition no_filter {A} (_ : A) : bool := true.
 
-(* SEARCH key MATCH p1 .. MATCH pn [DESC] IDS : the ids in reply order.
+Definition coll_scan_ids (globs : list bytes) (desc : bool) (c : coll) (limit : N) : list bytes :=
+  out_items (scan_multi globs no_filter limit false desc (map o_id (scan_ids c))).
+
+(* SEARCH key MATCH p1 .. MATCH pn [DESC] LIMIT limit IDS : the ids in reply order.
    sw.col.SearchValues / SearchValuesRange iterate c.values, entries (String(), ID()) *)
-Definition coll_search_ids (globs : list bytes) (desc : bool) (c : coll) : list bytes :=
-  search_multi globs desc (map vkey (search_values c)).
+Definition coll_search_ids (globs : list bytes) (desc : bool) (c : coll) (limit : N) : list bytes :=
+  map snd (out_items (search_multi globs no_filter limit false desc (map vkey (search_values c)))).
 
-(* ... COUNT with LIMIT limit (>= 1): "sw.output == outputCount && no filters && sw.globEverything"
+(* ... COUNT with LIMIT limit: "sw.output == outputCount && no filters && sw.globEverything"
    answers from the counter (Count() resp. StringCount()); otherwise the same iteration as for IDS
    runs and pushObject counts what passes the glob filter, stopping when count reaches LIMIT *)
 Definition coll_scan_count (globs : list bytes) (desc : bool) (c : coll) (limit : N) : N :=
   if glob_everything globs then scan_count_shortcut c 0 limit
-  else iter_count (coll_scan_ids globs desc c) 0 limit.
+  else out_count (scan_multi globs no_filter limit true desc (map o_id (scan_ids c))).
 
 Definition coll_search_count (globs : list bytes) (desc : bool) (c : coll) (limit : N) : N :=
   if glob_everything globs then search_count_shortcut c 0 limit
-  else iter_count (coll_search_ids globs desc c) 0 limit.
+  else out_count (search_multi globs no_filter limit true desc (map vkey (search_values c))).
 
 (* what the two paths should reach: the retrievable objects (members of objs = what Get returns)
    whose id matches one of the patterns, resp. the retrievable non-spatial objects whose string
